@@ -110,13 +110,13 @@ theorem C19_foreign_application_refused (app : Nat) (t : Table) (inv : Invite) (
     acceptInvite app t inv = none := by
   simp [acceptInvite, h]
 
-/-- **C19 (single use — full statement, for `Defects.none`).** Once `invite_accepted` has run for an
-    invitation that was in the table once, under its own token, no token and no key reaches it any
-    more: every later lookup returns something else or nothing. -/
+/-- **C19 (single use — full statement; holds for the code as it is since fix 7ec64bc).** Once
+    `invite_accepted` has run for an invitation that was in the table once, under its own token, no
+    token and no key reaches it any more: every later lookup returns something else or nothing. -/
 theorem C19_invite_single_use (t : Table) (tt : TokenType) (id : Nat) (k : Key) (ptok : Token)
     (hid : inviteIdOf tt = some id) (hone : countInvite t id = 1)
     (hin : ∃ e ∈ t, e.1 = .derived id ∧ sameInvite tt e.2 = true) :
-    ∀ tok key x, lookup (inviteAccepted Defects.none t tt k ptok) tok key = some x → inviteIdOf x ≠ some id :=
+    ∀ tok key x, lookup (inviteAccepted Defects.asImplemented t tt k ptok) tok key = some x → inviteIdOf x ≠ some id :=
   fun tok key x hl =>
     lookup_none_of_unreachable (inviteAccepted_unreachable hid hone hin) tok key x hl
 
@@ -132,14 +132,14 @@ theorem createInvite_once (t : Table) (id : Nat) (h : reachable t id = false) :
     rw [createInvite, count_append, h0]; simp [countInvite, inviteIdOf]
   · exact ⟨(.derived id, .ownedInvite id), by simp [createInvite], rfl, by simp [sameInvite]⟩
 
-/-- **C19_breaks_inviteRemovedUnderPeerToken** (DESIGN.md §4, site 12). For the code as it is the
-    consumed invitation is looked for under the NEW PEER's token: it stays in the table under its own
-    token, a second peer presenting the invitation's token is again treated as its bearer, bound and
-    accepted — until the process restarts. -/
-theorem C19_breaks_inviteRemovedUnderPeerToken :
+/-- **C19_fixed_inviteRemovedUnderPeerToken** (DESIGN.md §4, site 12; regression witness of fix 7ec64bc).
+    Before the fix the consumed invitation was looked for under the NEW PEER's token: it stayed in the
+    table under its own token, a second peer presenting the invitation's token was again treated as its
+    bearer, bound and accepted — until the process restarted. The code as it is removes it. -/
+theorem C19_fixed_inviteRemovedUnderPeerToken :
     let t0 := createInvite [] 5
     let tt : TokenType := .ownedInvite 5
-    let t1 := inviteAccepted Defects.asImplemented t0 tt 7 (.agreed 7)
+    let t1 := inviteAccepted Defects.beforeFix t0 tt 7 (.agreed 7)
     lookup t0 (.derived 5) 7 = some tt ∧
     -- first use: peer 7 is now an allowed peer …
     lookup t1 (.agreed 7) 7 = some (.allowedPeer 7) ∧
@@ -148,7 +148,7 @@ theorem C19_breaks_inviteRemovedUnderPeerToken :
     (initialise 1 (.ownedInvite 5) 42 (some ⟨8, true, ⟨8, chalMsg 42⟩⟩)).msgs =
       [.inviteAccepted (.ownedInvite 5) 8, .connected 8] ∧
     -- with the removal under the invitation's token it is gone
-    lookup (inviteAccepted Defects.none t0 tt 7 (.agreed 7)) (.derived 5) 8 = none := by
+    lookup (inviteAccepted Defects.asImplemented t0 tt 7 (.agreed 7)) (.derived 5) 8 = none := by
   decide
 
 /-! ### 3. meeting tokens -/
